@@ -366,6 +366,47 @@ func (ex *Explorer) intrinsic(caller *frame, name string, args []value) (value, 
 		return nil, true
 	case "vIsSymbolic":
 		return true, true
+	case "vExpireTimeouts":
+		if ex.S.ModelPkg != nil {
+			if f := ex.S.ModelPkg.Func("ExpireTimeouts"); f != nil {
+				call(ex.i, caller, token.NoPos, f, nil)
+			}
+		}
+		return nil, true
+	case "vFieldInt":
+		// vFieldInt(x any, name string) int64: an integer field of a struct value, exported or not
+		// (natively: reflect).  Lets a harness model read what a library keeps private.
+		x := args[0]
+		if f, ok := x.(iface); ok {
+			st, ok := f.t.Underlying().(*types.Struct)
+			if !ok {
+				panic(pathAbort{"harness", "vFieldInt: not a struct value"})
+			}
+			sv, _ := f.v.(structure)
+			for k := 0; k < st.NumFields(); k++ {
+				if st.Field(k).Name() == args[1].(string) {
+					switch n := sv[k].(type) {
+					case int64:
+						return n, true
+					case int:
+						return int64(n), true
+					case int32:
+						return int64(n), true
+					case uint8:
+						return int64(n), true
+					case bool:
+						if n {
+							return int64(1), true
+						}
+						return int64(0), true
+					case symv:
+						return symConv(types.Typ[types.Int64], n), true
+					}
+					panic(pathAbort{"harness", "vFieldInt: field is not an integer"})
+				}
+			}
+		}
+		panic(pathAbort{"harness", "vFieldInt: no such field"})
 	case "vYield":
 		ex.i.yield()
 		return nil, true
